@@ -180,6 +180,8 @@ def main(argv):
     findings = load_known_findings()
 
     n_obl = n_dis = 0
+    b_obl = b_dis = 0
+    bounds = set()
     failed, undecided, errors, known_hits = [], [], [], []
     by_solver, solver_time = {}, 0.0
     functions = {}
@@ -198,11 +200,19 @@ def main(argv):
         for res in rec["results"]:
             if not relevant(prop, rec, res):
                 continue
-            n_obl += 1
+            is_b = bool(rec.get("bounded"))
+            if is_b:
+                b_obl += 1
+                bounds.add(rec["bounded"])
+            else:
+                n_obl += 1
             fn["obligations"] += 1
             solver_time += res["time_s"]
             if res["verdict"] == "unsat":
-                n_dis += 1
+                if is_b:
+                    b_dis += 1
+                else:
+                    n_dis += 1
                 fn["discharged"] += 1
                 by_solver[res["solver"] or "?"] = by_solver.get(res["solver"] or "?", 0) + 1
                 if len(samples) < 6 and res["solver"] not in (None, "syntactic-identity") and res["kind"] in ("post", "refines", "lemma", "defined", "fresh"):
@@ -213,7 +223,10 @@ def main(argv):
                     # a recorded finding: reported as KNOWN-FINDING, not counted among the obligations
                     # claimed (its companion obligation outside the finding's region is counted)
                     known_hits.append((hit[0], rec, res))
-                    n_obl -= 1
+                    if is_b:
+                        b_obl -= 1
+                    else:
+                        n_obl -= 1
                     fn["obligations"] -= 1
                 else:
                     failed.append((rec, res))
@@ -221,7 +234,7 @@ def main(argv):
                 undecided.append((rec, res))
 
     # vacuity guards
-    vacuous = n_obl == 0 or all(f["paths"] == 0 for f in functions.values())
+    vacuous = (n_obl + b_obl) == 0 or all(f["paths"] == 0 for f in functions.values())
     canary_ok = True
 
     # the bounded stand-in (native, labelled bounded; never counted as proved)
@@ -346,6 +359,8 @@ def main(argv):
         "discharged": n_dis,
         "checker_cmd": f"./check {prop} --tier {tier}",
         "trusted_base": trusted,
+        "obligations_on_bounded_input_families": {"obligations": b_obl, "discharged": b_dis, "bounds": sorted(bounds),
+                                                   "note": "deductive runs over a bounded family of inputs; reported separately, not part of obligations/discharged above"},
         "functions_under_contract": {k: v for k, v in sorted(functions.items())},
         "discharged_by_backend": by_solver,
         "solver_time_s": round(solver_time, 2),
@@ -385,7 +400,7 @@ def main(argv):
     if not os.environ.get("VERIF_NO_EVIDENCE"):
         json.dump(ev, open(os.path.join(EVID, f"{prop}.json"), "w"), indent=1, default=str)
 
-    print(f"{prop} [{tier}] functions={len(functions)} obligations={n_obl} discharged={n_dis} failed={len(failed)} undecided={len(undecided)} "
+    print(f"{prop} [{tier}] functions={len(functions)} obligations={n_obl} discharged={n_dis} (+{b_dis}/{b_obl} on bounded input families) failed={len(failed)} undecided={len(undecided)} "
           f"known={len(known_hits)} errors={len(errors)} wall={wall:.1f}s")
     if bounded is not None and not bounded.get("error"):
         print(f"  bounded stand-in: evaluations={bounded.get('evaluations')} violations={len(bounded.get('violations', []))}")
